@@ -167,6 +167,32 @@ pub fn check_text_nt(text: &str, classes: &[&'static str], binders: Option<usize
     Ok(ok)
 }
 
+/// Recursive calls in every kind of position: the compiler decides per call whether it may be run as a
+/// tail call; a call that is wrongly treated as one (or wrongly not) computes something else as soon as
+/// the position is not a tail position. Contexts are stacked two deep around the recursive call.
+const REC_CTX: &[&str] = &[
+    "X", "(X // \"alt\")", "(\"pre\", X)", "(X, \"post\")", "(X | [.])", "[X]", "first(X)", "(try X catch \"caught\")", "(X as $v | [$v])", "(if X then 1 else 2 end)", "(X + 1)?", "{a: X}", "reduce X as $v (0; . + 1)",
+    "foreach X as $v (0; . + 1; [$v, .])", "limit(2; X)", "(X)?", "(label $l | X, break $l, 5)", "isempty(X)", "(null // X)", "(X // empty)", "(. as $v | X)", "(false, X | not)", "[limit(3; X)]", "(def loc: X; loc, 7)", "last(X)", "(X | select(. != null))", "(1 as $x | 2 as $y | X)", "[.[]?, X]",
+];
+const REC_BASE: &[&str] = &["empty", "null", "false", ".", "(., null)", "error(\"e\")", "(null, 1)", "[.]"];
+
+fn recursion_contexts(i: u64, sample: bool) -> CaseResult {
+    let n = REC_CTX.len() as u64;
+    let (outer, inner, base, shape) = ((i % n) as usize, ((i / n) % n) as usize, ((i / (n * n)) % REC_BASE.len() as u64) as usize, (i / (n * n * REC_BASE.len() as u64)) as usize);
+    let call = "(. + 1 | f)";
+    let wrapped = REC_CTX[outer].replace('X', &REC_CTX[inner].replace('X', call));
+    let base = REC_BASE[base];
+    let text = match shape {
+        // direct recursion
+        0 => format!("def f: if . >= 2 then {base} else {wrapped} end; f"),
+        // through a nested definition that calls back into its parent
+        1 => format!("def f: def g: {wrapped}; if . >= 2 then {base} else g end; f"),
+        // the recursive call is passed as a filter argument and run by the callee
+        _ => format!("def ap(h): h; def f: if . >= 2 then {base} else {} end; f", REC_CTX[outer].replace('X', &format!("ap({})", REC_CTX[inner].replace('X', call)))),
+    };
+    check_text_nt(&text, &["recursive-call-in-context"], None, &MVal::Null, &MVal::from_val(&jaq_json::Val::from(0isize)), sample).map(|ok| CaseOk { nontrivial: true, ..ok })
+}
+
 fn check_generated(src: &mut Src, max_depth: usize) -> CaseResult {
     let gvar = gen_input(src);
     let input = gen_input(src);
@@ -262,6 +288,11 @@ pub fn run(mut rep: Report) -> ! {
     {
         let exs = &exs;
         rep.exhaustive("manual-examples", exs.len() as u64 * nw, move |i, s| check_manual(&exs[(i / nw) as usize], (i % nw) as usize, s));
+    }
+    {
+        let total = (REC_CTX.len() * REC_CTX.len() * REC_BASE.len() * 3) as u64;
+        let stride = if rep.quick() { 2 } else { 1 };
+        rep.indexed("recursive-calls-in-contexts", total, stride, !rep.quick(), recursion_contexts);
     }
     let n = rep.n(200_000, 6_000_000);
     rep.random("generated-small", n / 2, 48, |src| check_generated(src, 3));
